@@ -5,6 +5,8 @@
 //   returned parameter is the one registered under exactly that name; config(name, value) follows the same rule;
 // registering a name twice throws; reads of a parameter through an accessor of another kind throw (integer / scalar / pair /
 // enumeration / string), reads through its own kind return the stored value.
+// mode=enum: an enumeration parameter is assigned a SYMBOLIC string (any bytes, length 0..L): the assignment is accepted iff the string
+// equals one of the enumeration's names (then it is read back as that enumerator), otherwise it throws and the previous value stays.
 // config: L=<maximal length of the symbolic name>;obj=<plain | solver: the names of a registered solver (lbfgs) instead of the own set>
 #include "sbv.h"
 #include <cstring>
@@ -49,6 +51,31 @@ extern "C" void sbv_harness(const char*)
     }
     sbv_check(twice, "registering a parameter name twice throws");
 
+    if (sbv_cfg_is("mode", "enum"))
+    {
+        char       text[16] = {0};
+        const long len      = sbv_range("len", 0, L);
+        for (long i = 0; i < L; ++i) text[i] = static_cast<char>(sbv_range("chr", 1, 255));
+        auto& par = plain.parameter("b"); // enumeration {red, green}, currently green
+        int   is_red = len == 3 ? 1 : 0, is_green = len == 5 ? 1 : 0;
+        for (long i = 0; i < 3; ++i) is_red &= text[i] == "red"[i] ? 1 : 0;
+        for (long i = 0; i < 5 && i < L; ++i) is_green &= text[i] == "green"[i] ? 1 : 0;
+        if (L < 5) is_green = 0;
+        bool threw = false;
+        try
+        {
+            par = std::string(text, static_cast<size_t>(len));
+        }
+        catch (const std::exception&)
+        {
+            threw = true;
+        }
+        sbv_check(threw == !(is_red || is_green), "an enumeration parameter accepts exactly the names of its enumerators (symbolic string), every other string throws");
+        const auto now = par.value<colour>();
+        sbv_check(now == (is_red ? colour::red : colour::green), "an accepted enumeration value is read back as assigned, a rejected one leaves the previous value intact");
+        sbv_reach("end of harness");
+        return;
+    }
     const auto           lbfgs = solver_t::all().get("lbfgs");
     const configurable_t& obj  = sbv_cfg_is("obj", "solver") ? static_cast<const configurable_t&>(*lbfgs) : plain;
 
